@@ -28,6 +28,9 @@
  *   xmit2 <szx> <bodyLen> <seed> <mtu2> <num.szx,…>        coap_add_data_large_response + coap_handle_request_send_block sequence (server, Block2)
  *   xmit1 <cszx|-> <bodyLen> <seed> <mtu> <code.num.szx|code,…>   coap_add_data_large_request + coap_send + coap_handle_response_send_block sequence (client, Block1)
  *
+ *   xmit1t <cszx|-> <bodyLen> <seed> <mtu> <non> <tx0> <p|x|y|t.code[.num.szx],…>   the client's Block1 send path with TOKENS and the whole
+ *                                              handle_response() chain (described at do_xmit1t)
+ *
  *   q408 / qenc / qset                         RFC 9177 (Q-Block) ops of C02, described at do_q408 / do_qenc / do_qset
  *
  * Layer B (H-sim, sim_core.h): a real client and a real server context, virtual clock, scripted network:
@@ -1110,6 +1113,117 @@ out:
   free(body);
 }
 
+/* xmit1t <cszx|-> <bodyLen> <seed> <mtu> <non> <tx0> <items> : the client's Block1 path WITH TOKENS (round R09c; model putStep1T /
+ * rspStep1T, Model/BlockNetTok1.lean).  session->tx_token starts at <tx0>; the application's requests are NON (non = 1) or CON.  Items:
+ *   p                  the application PUTs the body (token a1a1a1a1, Block1 (0,0,cszx) if given): coap_add_data_large_request + coap_send
+ *   t.code[.num.szx]   a response (code as in xmit1, optional Block1 (num,1,szx)) carrying token t = 0: the application's, 1: that of
+ *                      the datagram transmitted last, 2: STATE_TOKEN_FULL(tx0 + 1000, 3); what handle_response() does with it:
+ *                      coap_handle_response_send_block, if that returns 0 coap_handle_response_get_block, if that returns 0 the handler
+ *   x / y              the lg_xmit / the lg_crcv at the head of the session's list times out (LL_DELETE + coap_block_delete_lg_xmit / _crcv)
+ * Printed per item: p<first datagram>t<token> | pfail;  for a response the datagram transmitted (b…t<token>), i (send_block returned 1,
+ * nothing sent), f / F (returned 0 / with the code rewritten to 5.00) followed by T<token> = the token of rcvd the handler sees (S if
+ * get_block returned 1); then /X<n>[:blk.offset.last.count.base.link] C<n>[:app.base.retry] = both lists (length, head element). */
+static char x1t_tok[40];
+static void x1t_on_tx(const sim_dgram_t *d) {
+  x1_on_tx(d);
+  hex_into(x1t_tok, sizeof(x1t_tok), d->token, d->tkl);
+}
+static void x1t_state(coap_session_t *s) {
+  coap_lg_xmit_t *x; coap_lg_crcv_t *c; int nx = 0, nc = 0;
+  LL_FOREACH(s->lg_xmit, x) nx++;
+  LL_FOREACH(s->lg_crcv, c) nc++;
+  printf("/X%d", nx);
+  if (s->lg_xmit)
+    printf(":%u.%zu.%d.%u.%llu.%d", (unsigned)s->lg_xmit->blk_size, s->lg_xmit->offset, s->lg_xmit->last_block, (unsigned)s->lg_xmit->b.b1.count,
+           (unsigned long long)STATE_TOKEN_BASE(s->lg_xmit->b.b1.state_token), s->lg_xmit->lg_crcv ? 1 : 0);
+  printf("C%d", nc);
+  if (s->lg_crcv) {
+    char hx[40];
+    hex_into(hx, sizeof(hx), s->lg_crcv->app_token->s, s->lg_crcv->app_token->length);
+    printf(":%s.%llu.%u", hx, (unsigned long long)STATE_TOKEN_BASE(s->lg_crcv->state_token), (unsigned)s->lg_crcv->retry_counter);
+  }
+}
+static coap_response_t x1t_on_response(coap_session_t *session, const coap_pdu_t *sent, const coap_pdu_t *rcvd, const coap_mid_t mid) {
+  (void)session; (void)sent; (void)mid;
+  hex_into(crcvt_tbuf, sizeof(crcvt_tbuf), rcvd->actual_token.s, rcvd->actual_token.length);
+  return COAP_RESPONSE_OK;
+}
+static void do_xmit1t(int cszx, size_t bodyLen, unsigned seed, unsigned mtu, int non, uint64_t tx0, char *seq) {
+  static const uint8_t tok[4] = {0xa1, 0xa1, 0xa1, 0xa1};
+  sim_reset();
+  sim_log_enabled = 0;
+  uint8_t *body = mk_body(bodyLen, seed), buf[8];
+  coap_context_t *ctx = sim_new_context();
+  coap_session_t *s = sim_new_client(ctx, 5683);
+  char *tk, *save = NULL;
+  int k = 0;
+  coap_context_set_block_mode(ctx, COAP_BLOCK_USE_LIBCOAP | COAP_BLOCK_SINGLE_BODY);
+  s->block_mode = ctx->block_mode;
+  coap_session_set_mtu(s, mtu);
+  coap_register_response_handler(ctx, x1t_on_response);
+  s->tx_token = tx0;
+  sim_tx_hook = x1t_on_tx;
+  x1_buf[0] = 0; x1_tkl = 4; memcpy(x1_tok, tok, 4);
+  rel_count = 0;
+  for (tk = strtok_r(seq, ",", &save); tk; tk = strtok_r(NULL, ",", &save), k++) {
+    if (k) fputc(',', stdout);
+    x1_buf[0] = 0; x1t_tok[0] = 0; crcvt_tbuf[0] = 0;
+    if (!strcmp(tk, "p")) {
+      coap_pdu_t *p = coap_new_pdu(non ? COAP_MESSAGE_NON : COAP_MESSAGE_CON, COAP_REQUEST_CODE_PUT, s);
+      coap_add_token(p, 4, tok);
+      coap_add_option(p, COAP_OPTION_URI_PATH, 1, (const uint8_t *)"b");
+      if (cszx >= 0) coap_add_option(p, COAP_OPTION_BLOCK1, coap_encode_var_safe(buf, sizeof(buf), (unsigned)cszx), buf);
+      if (!coap_add_data_large_request(s, p, bodyLen, body, rel_cb, NULL)) { printf("pfail"); coap_delete_pdu(p); }
+      else if (coap_send(s, p) == COAP_INVALID_MID) printf("psend-fail");
+      else printf("p%st%s", x1_buf[0] ? x1_buf : "-", x1t_tok[0] ? x1t_tok : "-");
+    } else if (!strcmp(tk, "x") || !strcmp(tk, "y")) {
+      coap_lock_lock(ctx, break);
+      if (tk[0] == 'x' && s->lg_xmit) { coap_lg_xmit_t *x = s->lg_xmit; LL_DELETE(s->lg_xmit, x); coap_block_delete_lg_xmit(s, x); }
+      if (tk[0] == 'y' && s->lg_crcv) { coap_lg_crcv_t *c = s->lg_crcv; LL_DELETE(s->lg_crcv, c); coap_block_delete_lg_crcv(s, c); }
+      coap_lock_unlock(ctx);
+      printf("%s", tk);
+    } else {
+      unsigned t, code, num = 0, sz = 0;
+      int nf = sscanf(tk, "%u.%u.%u.%u", &t, &code, &num, &sz), ret;
+      uint8_t rtok[8]; size_t rtokn;
+      coap_pdu_t *rcvd;
+      if ((nf != 2 && nf != 4) || t > 2 || sz > 6 || num > 0xFFFFF || code > 255) { printf("bad-op"); break; }
+      if (t == 0) { memcpy(rtok, tok, 4); rtokn = 4; }
+      else if (t == 1) { memcpy(rtok, x1_tok, x1_tkl); rtokn = x1_tkl; }
+      else rtokn = coap_encode_var_safe8(rtok, 8, STATE_TOKEN_FULL(tx0 + 1000, 3));
+      rcvd = coap_pdu_init(COAP_MESSAGE_NON, (coap_pdu_code_t)code, (coap_mid_t)(300 + k), 256);
+      coap_add_token(rcvd, rtokn, rtok);
+      if (nf == 4) coap_add_option(rcvd, COAP_OPTION_BLOCK1, coap_encode_var_safe(buf, sizeof(buf), (num << 4) | 8 | sz), buf);
+      coap_lock_lock(ctx, break);
+      ret = coap_handle_response_send_block(s, NULL, rcvd);
+      if (x1_buf[0]) printf("%st%s", x1_buf, x1t_tok);
+      else if (ret == 1) printf("i");
+      else {
+        int ret2;
+        printf(code != 160 && rcvd->code == COAP_RESPONSE_CODE(500) ? "F" : "f");
+        ret2 = coap_handle_response_get_block(ctx, s, NULL, rcvd, COAP_RECURSE_OK);
+        if (ret2 == 0 && !crcvt_tbuf[0]) hex_into(crcvt_tbuf, sizeof(crcvt_tbuf), rcvd->actual_token.s, rcvd->actual_token.length);
+        if (ret2 == 0 || crcvt_tbuf[0]) printf("T%s", crcvt_tbuf); else printf("S");
+      }
+      coap_lock_unlock(ctx);
+      coap_delete_pdu(rcvd);
+    }
+    if (x1t_tok[0]) {
+      /* the message layer's part: the request just transmitted is acknowledged (an empty ACK), nothing stays queued */
+      coap_bin_const_t tb = { x1_tkl, x1_tok };
+      coap_lock_lock(ctx, break);
+      coap_cancel_all_messages(ctx, s, &tb);
+      coap_lock_unlock(ctx);
+    }
+    x1t_state(s);
+  }
+  sim_tx_hook = NULL;
+  sim_free_all(0);
+  sim_log_enabled = 1;
+  printf(" rel=%d", rel_count);
+  free(body);
+}
+
 /* q408 <szx> <bodyLen> <seed> <maxPayloads> <fmt|-> <type> <hex;hex;…> : the CLIENT sending a body with Q-Block1 (RFC 9177) and the
  * 4.08 "missing blocks" responses of a hostile server (C02).  The application PUTs (NON, 4-byte token, Uri-Path "b", Q-Block1
  * (0,0,szx)) with coap_add_data_large_request() and coap_send() on a session that has Q-Block negotiated (first payload set goes
@@ -1350,6 +1464,9 @@ static void step1(char *line) {
     do_xmit2((unsigned)strtoul(w[1], 0, 10), strtoull(w[2], 0, 10), (unsigned)strtoul(w[3], 0, 10), m1, m2, w[5]);
   } else if (!strcmp(w[0], "xmit1") && n == 6) {
     do_xmit1(strcmp(w[1], "-") ? atoi(w[1]) : -1, strtoull(w[2], 0, 10), (unsigned)strtoul(w[3], 0, 10), (unsigned)strtoul(w[4], 0, 10), w[5]);
+  } else if (!strcmp(w[0], "xmit1t") && n == 8) {
+    do_xmit1t(strcmp(w[1], "-") ? atoi(w[1]) : -1, strtoull(w[2], 0, 10), (unsigned)strtoul(w[3], 0, 10), (unsigned)strtoul(w[4], 0, 10),
+              atoi(w[5]) != 0, strtoull(w[6], 0, 10), w[7]);
   } else if (!strcmp(w[0], "q408") && n == 8) {
     do_q408((unsigned)strtoul(w[1], 0, 10), strtoull(w[2], 0, 10), (unsigned)strtoul(w[3], 0, 10), (unsigned)strtoul(w[4], 0, 10),
             strcmp(w[5], "-") ? atoi(w[5]) : -1, atoi(w[6]), w[7]);
